@@ -19,6 +19,16 @@ def _roots_agree(y1, y2):
     return z3.Implies(z3.And(y1 >= 0, y2 >= 0, y1 * y1 == y2 * y2), y1 == y2)
 
 
+@lemlib.lemma("half-quotient", 3)
+def _half_quotient(a, p, q):
+    return z3.Implies(z3.And(q != 0, 2 * a == p), a / q == p / (2 * q))
+
+
+@lemlib.lemma("degrees-times-pi", 2)
+def _deg_pi(x, pi):
+    return z3.Implies(pi != 0, (x * 180 / pi) * pi == 180 * x)
+
+
 ext_C10.install()  # numpy models needed by the C10 carriers (logical_and/or, count_nonzero log + row form, real arange)
 
 SHOLL = "swcgeom/analysis/sholl.py"
@@ -522,30 +532,77 @@ def register_lmeasure(R):
     NODE_PROTO.update({"children": _children, "subtree": lambda E, recv, a, k: Opaque(SUB(recv.z), TREE_PROTO)})
 
     # ------------------------------------------------------------ partition_asymmetry
-    def pa_post(E, v, o):
-        n = o["n"].z
-        n1, n2 = z3.ToReal(NTIPS(SUB(CHILD(n, 0)))), z3.ToReal(NTIPS(SUB(CHILD(n, 1))))
-        r = to_z3(v["result"], "real")
+    from swcgeom.core.swc_utils import get_types as _gt
+
+    SOMA_T = _gt().soma
+
+    def sel_type0(t):
+        return to_z3(col(t, "type").items[0], "int")
+
+    def tnode(S, t, i):
+        from swcgeom.core.tree import Tree
+
+        return S.obj(Tree.Node, attach=t, idx=i, names=t.fields["names"])
+
+    def pa_value(r, n1, n2):
         return z3.If(n1 == n2, r == 0, r * (n1 + n2 - 2) == z3.If(n1 >= n2, n1 - n2, n2 - n1))
 
-    R.add(f"{LM}:LMeasure.partition_asymmetry", prop="C10",
-          setup=lambda S: dict(self=lm(S), n=S.opaque(NODE_PROTO, name="bif")),
-          raises={"AssertionError": ("not-a-bifurcation", lambda E, v, o: NCH(v["n"].z) != 2)},
+    def pa_sides(o):
+        """(number of children, n1, n2): abstract protocol, or the textbook tip counts below the two daughters of a real node"""
+        n = o["n"]
+        if isinstance(n, Opaque):
+            return NCH(n.z), z3.ToReal(NTIPS(SUB(CHILD(n.z, 0)))), z3.ToReal(NTIPS(SUB(CHILD(n.z, 1))))
+        tp = Topo(pids_of(n.fields["attach"]))
+        ks = tp.kids(n.fields["idx"])
+        n1, n2 = (tp.terminal_degree(ks[0]), tp.terminal_degree(ks[1])) if len(ks) == 2 else (0, 0)
+        return z3.IntVal(len(ks)), z3.RealVal(n1), z3.RealVal(n2)
+
+    def pa_post(E, v, o):
+        _, n1, n2 = pa_sides(o)
+        return pa_value(to_z3(v["result"], "real"), n1, n2)
+
+    pa_variants = {"abstract-protocol": lambda S: dict(self=lm(S), n=S.opaque(NODE_PROTO, name="bif"))}
+    for p in TOPOS + BIGGER:
+        for i in range(len(p)):
+            pa_variants[f"real-tree,{pname(p)},node={i}"] = (lambda S, _p=p, _i=i: dict(self=lm(S), n=tnode(S, topo_tree(S, _p), _i)))
+    R.add(f"{LM}:LMeasure.partition_asymmetry", prop="C10", variants=pa_variants, options=dict(inline_calls=INLINE),
+          raises={"AssertionError": ("not-a-bifurcation", lambda E, v, o: pa_sides(v)[0] != 2)},
           ensures=[("zero-if-n1-equals-n2-else-abs-difference-over-n1-plus-n2-minus-2", pa_post),
-                   ("is-a-bifurcation", lambda E, v, o: NCH(o["n"].z) == 2)],
-          notes="n1, n2 = abstract tip counts (>= 1) of the two daughters' subtrees; the traversal that produces them is not part of this contract")
+                   ("is-a-bifurcation", lambda E, v, o: pa_sides(o)[0] == 2)],
+          notes="abstract-protocol variant: n1, n2 = abstract tip counts (>= 1) of the two daughters' subtrees; real-tree variants: every node of every "
+                "fixed topology (21 trees of 1-4 nodes, 4 shapes of 6-7 nodes), children() / subtree() / get_tips() executed from source, n1, n2 = textbook "
+                "tip counts below the two daughters")
 
-    def count_carrier(name, param, F, via=None, note=""):
-        R.add(f"{LM}:LMeasure.{name}", prop="C10",
-              setup=lambda S: {"self": lm(S), param: S.opaque(TREE_PROTO if via is None else NODE_PROTO, name=param)},
-              ensures=[("is-the-length-of-the-listed-set", lambda E, v, o: to_z3(v["result"], "int") == F(o[param].z))],
-              notes="dispatch only: the count of the abstract list returned by the tree (the traversal is C04/C08)" + note)
+    def count_carrier(name, param, F, topo_count, via=None, note=""):
+        """two kinds of variants: (a) dispatch only, over the abstract topology protocol; (b) a REAL tree of a fixed topology
+        (the library's traversal / set operations executed from source), compared with the textbook count"""
+        variants = {"abstract-protocol": lambda S: {"self": lm(S), param: S.opaque(TREE_PROTO if via is None else NODE_PROTO, name=param)}}
+        for p in TOPOS + BIGGER:
+            if via is None:
+                variants["real-tree," + pname(p)] = (lambda S, _p=p: {"self": lm(S), param: topo_tree(S, _p)})
+            else:
+                for i in range(len(p)):
+                    variants[f"real-tree,{pname(p)},node={i}"] = (lambda S, _p=p, _i=i: {"self": lm(S), param: tnode(S, topo_tree(S, _p), _i)})
 
-    count_carrier("n_stems", "tree", lambda t: NCH(SOMA(t)))
-    count_carrier("n_bifs", "tree", NFUR)
-    count_carrier("n_branch", "tree", NBR)
-    count_carrier("n_tips", "tree", NTIPS)
-    count_carrier("terminal_degree", "node", lambda n: NTIPS(SUB(n)), via="node")
+        def post(E, v, o):
+            x = o[param]
+            if isinstance(x, Opaque):
+                return to_z3(v["result"], "int") == F(x.z)
+            t, i = (x, None) if via is None else (x.fields["attach"], x.fields["idx"])
+            return isinstance(v["result"], int) and v["result"] == topo_count(Topo(pids_of(t)), i)
+
+        soma = (lambda x: sel_type0(x) == SOMA_T)
+        R.add(f"{LM}:LMeasure.{name}", prop="C10", variants=variants, options=dict(inline_calls=INLINE),
+              raises=({"ValueError": ("root-is-not-typed-soma", lambda E, v, o: False if isinstance(v[param], Opaque) else z3.Not(soma(v[param])))} if name == "n_stems" else None),
+              ensures=[("is-the-length-of-the-listed-set", post)],
+              notes="abstract-protocol variant: dispatch only (the count of the abstract list returned by the tree); real-tree variants: topology fixed per "
+                    "variant (21 trees of 1-4 nodes, 4 shapes of 6-7 nodes), the library's own traversal executed from source, compared with the textbook count" + note)
+
+    count_carrier("n_stems", "tree", lambda t: NCH(SOMA(t)), lambda tp, i: len(tp.kids(0)))
+    count_carrier("n_bifs", "tree", NFUR, lambda tp, i: len(tp.furcations()))
+    count_carrier("n_branch", "tree", NBR, lambda tp, i: len(tp.branches()))
+    count_carrier("n_tips", "tree", NTIPS, lambda tp, i: len(tp.tips()))
+    count_carrier("terminal_degree", "node", lambda n: NTIPS(SUB(n)), lambda tp, i: tp.terminal_degree(i), via="node")
 
     # ------------------------------------------------------------------ fragmentation
     def branch_sym(S):
@@ -1220,3 +1277,126 @@ def register_topology_features(R, H):
           variants={c.__name__: (lambda S, _c=c: dict(cls=_c, tree=sym_tree(S, "t"))) for c in (FurcationFeatures, TipFeatures)},
           ensures=[("fresh-subset-object-of-the-class-over-fresh-node-features-of-that-very-tree-with-empty-caches", ft_post)],
           notes="tree of symbolic size")
+
+    # ------------------------------------------------ bifurcation angles (L-Measure)
+    # Everything is stated through squared distances: for arms u = P_a - P_b, w = P_c - P_b the polarisation identity gives
+    # u.w = (d2(a,b) + d2(c,b) - d2(a,c)) / 2, |u| = dist(a,b), |w| = dist(c,b).  arccos is uninterpreted (same symbol in the
+    # code model and here), degrees(x) = x*180/pi with the engine's abstract pi.
+    from swcgeom.analysis.lmeasure import LMeasure
+
+    ARCCOS = z3.Function("arccos", z3.RealSort(), z3.RealSort())
+    SORTED_TOPOS = [p for p in TOPOS if all(q < i for i, q in enumerate(p))]
+
+    def bif_variants():
+        out = {}
+        for p in SORTED_TOPOS + BIGGER:
+            for i in range(len(p)):
+                out[f"{pname(p)},node={i}"] = (lambda S, _p=p, _i=i: dict(self=S.obj(LMeasure, compartment_point=-1), bif=tnode_(S, topo_tree(S, _p), _i)))
+        return out
+
+    def tnode_(S, t, i):
+        return S.obj(Tree.Node, attach=t, idx=i, names=t.fields["names"])
+
+    def arms(o, remote):
+        """(bifurcation node, [end of arm 1, end of arm 2]) or None if the node does not have exactly two children"""
+        b = o["bif"].fields["idx"]
+        tp = Topo(pids_of(o["bif"].fields["attach"]))
+        ks = tp.kids(b)
+        if len(ks) != 2:
+            return tp, b, None
+        return tp, b, [tp.remote_end(k) for k in ks] if remote else ks
+
+    def cos_between(g, b, a, c):
+        """cosine of the angle at b between the arms b->a and b->c (defined when both arms have positive length)"""
+        sq = lambda i, j: g.d(i, j) * g.d(i, j)
+        return (sq(a, b) + sq(c, b) - sq(a, c)) / (2 * g.d(a, b) * g.d(c, b))
+
+    def angle_deg_is(E, r, cosv):
+        clipped = z3.If(cosv < -1, z3.RealVal(-1), z3.If(cosv > 1, z3.RealVal(1), cosv))
+        return r * to_z3(E.pi_const(), "real") == 180 * ARCCOS(clipped)
+
+    def zero_arm(E, o, remote, with_parent=False):
+        tp, b, ends = arms(o, remote)
+        g = Geo(E, o["bif"].fields["attach"])
+        zs = [g.d(e, b) == 0 for e in ends]
+        if with_parent:
+            zs.append(g.d(tp.pids[b], b) == 0)
+        return z3.Or(*zs)
+
+    def ampl_post(remote):
+        def f(E, v, o):
+            tp, b, ends = arms(o, remote)
+            if ends is None:
+                return False
+            g = Geo(E, o["bif"].fields["attach"])
+            return z3.And(z3.Not(zero_arm(E, o, remote)), angle_deg_is(E, to_z3(v["result"], "real"), cos_between(g, b, ends[0], ends[1])))
+
+        return f
+
+    def dotz(u, w):
+        return sum((to_z3(a, "real") * to_z3(b, "real") for a, b in zip(u.items, w.items)), z3.RealVal(0))
+
+    def polar_steps(E, g, tag, u, w, b, a, c):
+        """proof steps for one pair of arms u = P_a - P_b, w = P_c - P_b held by the code as coordinate vectors:
+        2 u.w = d2(a,b) + d2(c,b) - d2(a,c) (a ring identity), hence the code's cosine u.w / (|u||w|) is the spec's"""
+        ta, I = g.ta, z3.IntVal
+        dz = dotz(u, w)
+        E.prove(f"{tag}/step/polarisation-identity", 2 * dz == d2(ta, I(a), I(b)) + d2(ta, I(c), I(b)) - d2(ta, I(a), I(c)), "proof step")
+        na, nc, nac = g.d(a, b), g.d(c, b), g.d(a, c)
+        P = na * na + nc * nc - nac * nac
+        E.prove(f"{tag}/step/dot-product-through-the-three-distances", 2 * dz == P, "proof step")
+        lemlib.use(E, "half-quotient", dz, P, na * nc)
+        cosv = cos_between(g, b, a, c)
+        E.prove(f"{tag}/step/cosine-of-the-code-is-the-cosine-of-the-three-distances", z3.Implies(na * nc != 0, dz / (na * nc) == cosv), "proof step")
+        clipped = z3.If(cosv < -1, z3.RealVal(-1), z3.If(cosv > 1, z3.RealVal(1), cosv))
+        lemlib.use(E, "degrees-times-pi", ARCCOS(clipped), to_z3(E.pi_const(), "real"))
+
+    def polar_hint(nm, remote, with_parent=False):
+        def h(E, vars):
+            if not all(isinstance(vars.get(k), NArr) for k in ("v1", "v2")) or not isinstance(vars.get("bif"), Obj_):
+                return
+            tp, b, ends = arms(vars, remote)
+            if ends is None:
+                return
+            g = Geo(E, vars["bif"].fields["attach"])
+            if not with_parent:
+                polar_steps(E, g, f"LMeasure.{nm}", vars["v1"], vars["v2"], b, ends[0], ends[1])
+            elif isinstance(vars.get("v"), NArr) and tp.pids[b] != -1:
+                polar_steps(E, g, f"LMeasure.{nm}/arm1", vars["v"], vars["v1"], b, tp.pids[b], ends[0])
+                polar_steps(E, g, f"LMeasure.{nm}/arm2", vars["v"], vars["v2"], b, tp.pids[b], ends[1])
+
+        return h
+
+    for nm, remote in (("bif_ampl_local", False), ("bif_ampl_remote", True)):
+        R.add(f"{LM}:LMeasure.{nm}", prop="C10", variants=bif_variants(),
+              options=dict(inline_calls=INLINE, hints={"post/degrees-of-arccos-of-the-clipped-cosine-between-the-two-arms": polar_hint(nm, remote)}),
+              raises={"AssertionError": ("not-a-bifurcation", lambda E, v, o, _r=remote: arms(v, _r)[2] is None),
+                      "ValueError": ("an-arm-of-zero-length", lambda E, v, o, _r=remote: arms(v, _r)[2] is not None and zero_arm(E, v, _r))},
+              ensures=[("degrees-of-arccos-of-the-clipped-cosine-between-the-two-arms", ampl_post(remote))],
+              notes="every node of every parents-first topology of 1-4 nodes (10 parent vectors) and of 4 shapes of 6-7 nodes; arms run from the bifurcation to its two "
+                    + ("next critical nodes (furcation or tip) below each daughter" if remote else "daughters") + "; coordinates symbolic; arccos uninterpreted")
+
+    def tilt_post(remote):
+        def f(E, v, o):
+            tp, b, ends = arms(o, remote)
+            if ends is None or tp.pids[b] == -1:
+                return False
+            g = Geo(E, o["bif"].fields["attach"])
+            r, par = to_z3(v["result"], "real"), tp.pids[b]
+            a1, a2 = z3.Real(fresh_name("tilt1")), z3.Real(fresh_name("tilt2"))
+            # exists a1, a2: the two angles, result = the smaller  <=>  stated without quantifiers through both cases
+            c1, c2 = cos_between(g, b, par, ends[0]), cos_between(g, b, par, ends[1])
+            pi = to_z3(E.pi_const(), "real")
+            clip = lambda c: z3.If(c < -1, z3.RealVal(-1), z3.If(c > 1, z3.RealVal(1), c))
+            d1, d2_ = 180 * ARCCOS(clip(c1)) / pi, 180 * ARCCOS(clip(c2)) / pi
+            return z3.And(z3.Not(zero_arm(E, o, remote, True)), r == z3.If(d1 <= d2_, d1, d2_))
+
+        return f
+
+    for nm, remote in (("bif_tilt_local", False), ("bif_tilt_remote", True)):
+        R.add(f"{LM}:LMeasure.{nm}", prop="C10", variants=bif_variants(),
+              options=dict(inline_calls=INLINE, hints={"post/smaller-of-the-two-angles-in-degrees-between-the-parent-segment-and-each-arm": polar_hint(nm, remote, True)}),
+              raises={"AssertionError": ("root-or-not-a-bifurcation", lambda E, v, o, _r=remote: arms(v, _r)[2] is None or arms(v, _r)[0].pids[arms(v, _r)[1]] == -1),
+                      "ValueError": ("an-arm-or-the-parent-segment-of-zero-length", lambda E, v, o, _r=remote: arms(v, _r)[2] is not None and arms(v, _r)[0].pids[arms(v, _r)[1]] != -1 and zero_arm(E, v, _r, True))},
+              ensures=[("smaller-of-the-two-angles-in-degrees-between-the-parent-segment-and-each-arm", tilt_post(remote))],
+              notes="as bif_ampl_*; the parent segment runs from the bifurcation to its parent node")
